@@ -191,6 +191,7 @@ func runC15(o *hx.Out, r *hx.Rand, thorough bool) {
 			var opDesc []string
 			var okDescs []*grpc.ServiceDesc
 			var okHandlers []interface{}
+			refNames := map[string]bool{}
 			for _, op := range ops {
 				switch op.kind {
 				case "reg":
@@ -210,9 +211,17 @@ func runC15(o *hx.Out, r *hx.Rand, thorough bool) {
 					if op.handler != nil {
 						hByPtr[op.handler] = op.hID
 					}
-					if !panicked && op.impl {
+					// the reference gets what a standard server accepts: well-typed, name not yet taken
+					// (decided here, not by what the library under test did)
+					dup := refNames[op.desc.ServiceName]
+					if op.impl && !dup {
 						okDescs = append(okDescs, op.desc)
 						okHandlers = append(okHandlers, op.handler)
+						refNames[op.desc.ServiceName] = true
+					}
+					if !panicked && op.impl && dup {
+						o.Violate("a second registration of a service name was accepted",
+							map[string]interface{}{"carrier": c.name, "service": op.desc.ServiceName, "ops_so_far": opDesc}, "no panic", "panic")
 					}
 					if !panicked && !op.impl {
 						o.Violate("a handler that does not implement the service's interface was accepted",
